@@ -135,7 +135,11 @@ class Program:
         mod, _, cname = cls.rpartition('.')
         m = self.module(mod)
         if m and cname in m.classes and attr in m.classes[cname][1]:
-            return self.const_value(m.classes[cname][1][attr])
+            v = self.const_value(m.classes[cname][1][attr])
+            if v is not NotImplemented and 'Enum' in m.classes[cname][2]:
+                from .vals import EnumMember
+                return EnumMember(cls, attr, v)
+            return v
         return NotImplemented
 
     def const_value(self, node):
@@ -258,6 +262,16 @@ class Program:
                 return Ptr(inner.oid, 0)
             if desc[0] == 'const':
                 return desc[1]
+            if desc[0] == 'funcref':
+                # a function of /repo passed as a value (callback parameter): 'module.function'
+                mod, _, fn = desc[1].rpartition('.')
+                m = self.module(mod)
+                if m is None or fn not in m.functions:
+                    raise Unsupported('funcref %s: no such function in /repo' % desc[1])
+                return FuncV(m.functions[fn].qname)
+            if desc[0] == 'specfn':
+                # an arbitrary callback, described by a specification function (uninterpreted results)
+                return FuncV('spec.' + desc[1])
             if desc[0] == 'cstruct':
                 sdef = self.structs.get(desc[1])
                 if sdef is None:
